@@ -60,6 +60,8 @@ scen('established', dict(initiator='A', budget=dict(trig=1, fault=1 if ck.quick 
 # two triggers (rekey + anything) without faults: rekeyed successors, several IKE_SAs per endpoint
 scen('established', dict(initiator='A', budget=dict(trig=2, fault=0 if ck.quick else 1)),
      ('rekey_ike', 'delete_ike', 'acquire', 'soft'))
+# the successor ends (delete exchange) while copies of the rekey messages are still around
+scen('established', dict(initiator='A', budget=dict(trig=2, fault=1)), ('rekey_ike', 'delete_ike'))
 # simultaneous initiation by both peers
 scen('empty', dict(budget=dict(trigA=1, trigB=1, fault=1 if ck.quick else 2)), ('acquire',))
 # a third peer
